@@ -208,6 +208,26 @@ def step (batch : Nat) (buffer : Int) (h : Holder) (st : Json) : Except String (
       pure (h, Json.arr (r.map fun (nm, jobs) => Json.arr #[Json.str nm, Json.arr (jobs.map fun (jid, ns) =>
         Json.arr #[Json.str jid, Json.arr (ns.map fun n =>
           Json.mkObj [("node", nodeJson n), ("children", Json.arr ((childrenOf h.store n.id).map Json.str).toArray)]).toArray]).toArray]).toArray)
+    | some (.str "run") =>
+      -- ["run", ingest?, unique?, [events]]: one whole run in a new process
+      let a1 : Option Json := a[1]?
+      let a2 : Option Json := a[2]?
+      let a3 : Option Json := a[3]?
+      let ing := match a1 with | some (.bool b) => b | _ => false
+      let uq := match a2 with | some (.bool b) => b | _ => false
+      let evs ← match a3 with
+        | some (.arr es) => es.toList.mapM parseNode
+        | _ => pure []
+      let (s1, st) := runOnce batch buffer ing uq evs h.store
+      let stj : Json := match st with
+        | .ok => "ok"
+        | .integrity => "integrity"
+        | .valueerror => "valueerror"
+      let cls := shapeClasses s1
+      pure (Holder.fresh s1, Json.mkObj [("status", stj),
+        ("classes", if uq && st == .ok then Json.arr (cls.map fun (nm, sh, ids) =>
+            Json.mkObj [("name", nm), ("shape", shapeJson sh), ("ids", Json.arr (ids.map Json.str).toArray)]).toArray
+          else Json.null)])
     | some (.str "dump") =>
       pure (h, Json.mkObj [("nodes", Json.arr (h.store.nodes.map nodeJson).toArray),
         ("assoc", Json.arr (h.store.assoc.map fun (p, c) => Json.arr #[Json.str p, Json.str c]).toArray),
